@@ -61,7 +61,7 @@ LEVELS = {
             "components": {"real": ["pkg/core diff/update/download/upload", "pkg/storage/localfs", "pkg/cafs"], "stub": STUB + ["simfs over MemMapFs"]},
             "assumptions": []},
     "C16": {"level": "exploration", "rule": RULE,
-            "text": "(a) seeded histories of Put (overwrite / create-if-absent) / Get (Read and the reader's WriteTo) / GetAt / Has / GetAttr / Touch / Delete / Clear / Keys / KeysPrefix (every page size, following next, also after abandoning a pagination half-way) over hierarchical keys whose components are prefixes of one another, on MemMapFs and on a real temporary directory, checked step by step against a map model whose listing is exact-prefix, delimiter roll-up, lexicographic, each item once; (b) 2..4 writers creating the same key with create-if-absent through simfs, where every afero call (mkdir, open O_EXCL, write, close) of every writer is a scheduling point and the back-off runs on the simulated clock: exactly one wins and the key holds its bytes",
+            "text": "(a) seeded histories of Put (overwrite / create-if-absent) / Get (Read and the reader's WriteTo) / GetAt / Has / GetAttr / Touch / Delete / Clear / Keys / KeysPrefix (every page size, following next, also after abandoning a pagination half-way) over hierarchical keys whose components are prefixes of one another, on MemMapFs and on a real temporary directory, checked step by step against a map model whose listing is exact-prefix, delimiter roll-up, lexicographic, each item once; (b) 2..4 writers creating the same key with create-if-absent through simfs, where every afero call (mkdir, open O_EXCL, write, close) of every writer is a scheduling point and the back-off runs on the simulated clock: exactly one wins and the key holds its bytes; the same race with one or two disk errors (EIO, short write + ENOSPC, failing close) on the writers' file writes: writers may fail and retry, never do two win, a winner's bytes are the key's",
             "note": "keys are generated so that no key is a directory prefix of another (a file system cannot hold both); Keys() order is not asserted",
             "components": {"real": ["pkg/storage/localfs", "afero MemMapFs / OsFs (kernel O_EXCL)"], "stub": ["simfs scheduling wrapper", "clock: testing/synctest"]},
             "assumptions": []},
